@@ -197,6 +197,90 @@ Definition aterminalb (s : ast) : bool :=
 Definition aw_done (a : awaiter) : bool := match a_pc a with ADone _ => true | _ => false end.
 
 (* ------------------------------------------------------------------------------------ *)
+(** * (a') await path at the granularity of USER CALLBACKS
+    The awaiter's waker is user (executor) code that the library calls back into:
+    `park_if_still_loading` = lock wakers; if loading { push(waker.clone()) } else { unlock;
+    waker.wake_by_ref() }.  With a waker whose `clone` / `wake_by_ref` are yield points
+    ("user:waker_clone", "user:waker_wake_by_ref") the awaiter can be pre-empted INSIDE the
+    wakers lock (after the re-check, before the push).  A thread that needs the wakers lock
+    then blocks and continues as soon as it is released. *)
+Inductive ext := XNone | XClone | XSelf.
+Record ust := mkU {
+  u_s : ast;
+  u_wl : option nat;       (* holder of the wakers lock across a yield point *)
+  u_wq : list nat;         (* threads blocked on it, in arrival order *)
+  u_ext : list ext;        (* per awaiter: where inside park_if_still_loading it stands *)
+}.
+
+Definition in_q (t : nat) (q : list nat) : bool := existsb (Nat.eqb t) q.
+
+(** the awaiter enters park_if_still_loading: takes the lock and re-checks `loading` *)
+Definition u_enter (u : ust) (i : nat) : ust :=
+  match u_wl u with
+  | Some _ => mkU (u_s u) (u_wl u) (u_wq u ++ [i]) (u_ext u)
+  | None =>
+      if loading (u_s u) then mkU (u_s u) (Some i) (u_wq u) (upd (u_ext u) i XClone)
+      else mkU (u_s u) None (u_wq u) (upd (u_ext u) i XSelf)
+  end.
+
+Definition u_comp (u : ust) : ust :=
+  let k := length (aws (u_s u)) in
+  match c_pc (u_s u) with
+  | CBeforeDrain =>
+      match u_wl u with
+      | Some _ => mkU (u_s u) (u_wl u) (u_wq u ++ [k]) (u_ext u)
+      | None => mkU (comp_step (u_s u)) None (u_wq u) (u_ext u)
+      end
+  | _ => mkU (comp_step (u_s u)) (u_wl u) (u_wq u) (u_ext u)
+  end.
+
+Definition u_resume (u : ust) (t : nat) : ust :=
+  match nth_error (aws (u_s u)) t with
+  | Some _ => u_enter u t
+  | None => u_comp u
+  end.
+
+Fixpoint u_settle (fuel : nat) (u : ust) : ust :=
+  match fuel with
+  | O => u
+  | S f =>
+      match u_wl u, u_wq u with
+      | None, t :: q => u_settle f (u_resume (mkU (u_s u) None q (u_ext u)) t)
+      | _, _ => u
+      end
+  end.
+
+Definition ustep (t : nat) (u : ust) : ust :=
+  if in_q t (u_wq u) then u else
+  match nth_error (aws (u_s u)) t with
+  | Some a =>
+      match a_pc a with
+      | ALoaded g =>
+          match nth t (u_ext u) XNone with
+          | XNone => u_enter u t
+          | XClone =>
+              (* waker cloned: push, unlock, return Pending *)
+              let u1 := mkU (poll_park Prefix t a g (u_s u)) None (u_wq u) (upd (u_ext u) t XNone) in
+              u_settle (length (u_wq u1)) u1
+          | XSelf =>
+              (* `loading` was false under the lock: wake_by_ref, return Pending *)
+              mkU (poll_park Fixed t a g (u_s u)) (u_wl u) (u_wq u) (upd (u_ext u) t XNone)
+          end
+      | _ => mkU (aw_step Fixed t a (u_s u)) (u_wl u) (u_wq u) (u_ext u)
+      end
+  | None => if t =? length (aws (u_s u)) then u_comp u else u
+  end.
+
+Definition urun (u : ust) (sched : list nat) : ust := fold_left (fun u t => ustep t u) sched u.
+Definition uinit (kinds : list bool) : ust := mkU (ainit kinds) None [] (map (fun _ => XNone) kinds).
+
+Definition ext_idle (e : ext) : bool := match e with XNone => true | _ => false end.
+(** nothing can move: no thread blocked, nobody inside park_if_still_loading, base state terminal *)
+Definition uterminalb (u : ust) : bool :=
+  match u_wq u with [] => true | _ => false end && forallb ext_idle (u_ext u)
+  && aterminalb (u_s u).
+
+(* ------------------------------------------------------------------------------------ *)
 (** * (b) effect notification channel *)
 
 (** receiver = the effect's task (`while rx.next().await.is_some() { if update_if_necessary() { run } }`)
